@@ -160,7 +160,7 @@ package hclsyntax
 // verif:func (*peeker).nextToken
 //@ props C02,C14,C15
 //@ nosafety
-//@ requires len(p.IncludeNewlinesStack) >= 1 && p.NextIndex >= 0
+//@ requires len(p.IncludeNewlinesStack) >= 1
 //@ pure
 //@ ensures found: stopsAt(p, ret1 - 1) && ret0.Range == p.Tokens[ret1 - 1].Range && (fakeNL(p, ret1 - 1) ==> ret0.Type == TokenNewline) && (!fakeNL(p, ret1 - 1) ==> ret0 == p.Tokens[ret1 - 1]) || allSkipped(p) && ret1 == len(p.Tokens) && (len(p.Tokens) >= 1 ==> ret0 == p.Tokens[len(p.Tokens) - 1])
 //@ loop 1 invariant p.NextIndex <= i && (forall j int :: { p.Tokens[j] } p.NextIndex <= j && j < i ==> skipped(p, j))
@@ -168,7 +168,7 @@ package hclsyntax
 // verif:func (*peeker).Peek
 //@ props C02,C14,C15
 //@ nosafety
-//@ requires len(p.IncludeNewlinesStack) >= 1 && p.NextIndex >= 0
+//@ requires len(p.IncludeNewlinesStack) >= 1
 //@ pure
 //@ ensures found: (exists i int :: { p.Tokens[i] } stopsAt(p, i) && ret.Range == p.Tokens[i].Range && (fakeNL(p, i) ==> ret.Type == TokenNewline) && (!fakeNL(p, i) ==> ret == p.Tokens[i])) || allSkipped(p) && (len(p.Tokens) >= 1 ==> ret == p.Tokens[len(p.Tokens) - 1])
 
@@ -183,7 +183,7 @@ package hclsyntax
 // verif:func (*peeker).NextRange
 //@ props C02,C14,C15
 //@ nosafety
-//@ requires len(p.IncludeNewlinesStack) >= 1 && p.NextIndex >= 0
+//@ requires len(p.IncludeNewlinesStack) >= 1
 //@ pure
 //@ ensures found: (exists i int :: { p.Tokens[i] } stopsAt(p, i) && ret == p.Tokens[i].Range) || allSkipped(p) && (len(p.Tokens) >= 1 ==> ret == p.Tokens[len(p.Tokens) - 1].Range)
 
